@@ -999,6 +999,40 @@ func c12(r *Report) {
 				}
 			}
 		}
+		// the position of a new child is found by the scan over the existing children and by nothing
+		// else: every store to the list in an Add method lies inside or behind the scan loop (a
+		// shortcut in front of it - "append when not above the last" - decides ties on its own terms)
+		for _, side := range []struct{ add, field string }{{"AddRequestModifier", "reqmods"}, {"AddResponseModifier", "resmods"}} {
+			f := w.method(grp, side.add)
+			if f == nil || f.Blocks == nil {
+				continue
+			}
+			loops := natLoops(f)
+			nSt, okSt := 0, true
+			var at token.Pos = f.Pos()
+			for _, in := range instrs(f) {
+				st, isSt := in.(*ssa.Store)
+				if !isSt {
+					continue
+				}
+				fa, isFa := st.Addr.(*ssa.FieldAddr)
+				if !isFa || fieldObj(fa).Name() != side.field {
+					continue
+				}
+				nSt++
+				behind := false
+				for _, l := range loops {
+					if l.Head.Dominates(st.Block()) {
+						behind = true
+					}
+				}
+				if !behind && !belowLast(f, st) {
+					okSt = false
+					at = st.Pos()
+				}
+			}
+			r.Decide("path", "(*M/priority.Group)."+side.add+": the list changes only inside or behind the scan over the existing children", nSt >= 2 && okSt && len(loops) >= 1, "every store to "+side.field+" is dominated by the head of the scan loop (or guarded by new < priority of the last child, which the scan would answer the same way)", "the list is changed on a path that has not compared the new child with the existing ones in the scan (a shortcut in front of the loop): children of equal priority end up in listed order instead of later-listed first, or the descending order is lost", at)
+		}
 		r.Decide("sibling", "M/priority.Group: request and response insertion use the same comparison", len(ops) == 2 && ops["AddRequestModifier"] == ops["AddResponseModifier"], "both: "+ops["AddRequestModifier"], fmt.Sprintf("the two sides order equal priorities differently: %v", ops), grp.Obj().Pos())
 		okDesc := strings.Contains(ops["AddRequestModifier"], "newtrue >= existingtrue") || strings.Contains(ops["AddRequestModifier"], "newtrue > existingtrue")
 		r.Decide("sibling", "M/priority.Group: a new child is placed before the first existing child it is not lower than", okDesc, ops["AddRequestModifier"], "insertion no longer keeps descending priority: "+ops["AddRequestModifier"], grp.Obj().Pos())
@@ -1308,4 +1342,67 @@ func priorityExactRule(r *Report) {
 	if n == 0 {
 		r.Hold("flow", "M/priority: priorities stay integers", "no conversion from a floating-point value to an integer")
 	}
+}
+
+// belowLast: the store is guarded by a strict test that the new child's
+// priority is below that of the last (lowest) existing child - the one case in
+// which the scan is known to end without a match, so appending at once is what
+// it would do.
+func belowLast(f *ssa.Function, st *ssa.Store) bool {
+	isNew := func(v ssa.Value) bool {
+		for _, p := range f.Params {
+			if p.Name() == "priority" && isParamVal(v, p) {
+				return true
+			}
+		}
+		if ld, ok := v.(*ssa.UnOp); ok && ld.Op == token.MUL {
+			if fa, isFa := ld.X.(*ssa.FieldAddr); isFa && fieldObj(fa).Name() == "priority" {
+				_, isAlloc := fa.X.(*ssa.Alloc)
+				return isAlloc
+			}
+		}
+		return false
+	}
+	isLast := func(v ssa.Value) bool {
+		ld, ok := v.(*ssa.UnOp)
+		if !ok || ld.Op != token.MUL {
+			return false
+		}
+		fa, isFa := ld.X.(*ssa.FieldAddr)
+		if !isFa || fieldObj(fa).Name() != "priority" {
+			return false
+		}
+		el, isLd := fa.X.(*ssa.UnOp)
+		if !isLd {
+			return false
+		}
+		ia, isIa := el.X.(*ssa.IndexAddr)
+		if !isIa {
+			return false
+		}
+		ev := &miniEval{leaf: func(x ssa.Value) (int64, bool) {
+			if c, isC := x.(*ssa.Call); isC {
+				if b, isB := c.Call.Value.(*ssa.Builtin); isB && b.Name() == "len" {
+					return 5, true
+				}
+			}
+			return 0, false
+		}}
+		k, okK := ev.Int(ia.Index)
+		return okK && k == 4
+	}
+	for _, ce := range ctrlEdges(st.Block()) {
+		b, ok := ce.If.Cond.(*ssa.BinOp)
+		if !ok {
+			continue
+		}
+		switch {
+		case b.Op == token.LSS && isNew(b.X) && isLast(b.Y) && ce.Taken,
+			b.Op == token.GTR && isLast(b.X) && isNew(b.Y) && ce.Taken,
+			b.Op == token.GEQ && isNew(b.X) && isLast(b.Y) && !ce.Taken,
+			b.Op == token.LEQ && isLast(b.X) && isNew(b.Y) && !ce.Taken:
+			return true
+		}
+	}
+	return false
 }
